@@ -81,7 +81,7 @@ def run_impl_many(texts):
 def gen_texts(tier, seed, n_quick, n_thorough, profile=None):
     """corpus first (fixtures + committed regressions), then generated modules"""
     out = []
-    for f in sorted(glob.glob('/repo/tests/fixtures/*.i')):
+    for f in sorted(glob.glob(common.REPO + '/tests/fixtures/*.i')):
         out.append(('fixture:' + os.path.basename(f), open(f).read()))
     for f in sorted(glob.glob(os.path.join(common.VERIF, 'corpus', 'inst', '*.i'))):
         out.append(('corpus:' + os.path.basename(f), open(f).read()))
